@@ -509,7 +509,11 @@ def draw_network(
         edge_collection = nx.draw_networkx_edges(
             graph, pos, ax=ax, alpha=0.5, style="--"
         )
-        edge_collection.set_zorder(0)
+        # a list is returned for graphs without edges (empty) and for directed graphs (arrows)
+        if not isinstance(edge_collection, list):
+            edge_collection = [edge_collection]
+        for collection in edge_collection:
+            collection.set_zorder(0)
 
     return ax
 
